@@ -377,6 +377,16 @@ def c28(idx: Index, rep: Report, tier: str) -> None:
     ccfg = cfg_of(comp)
     cdu = DefUse(ccfg)
     ns = 0
+    # the end-effect variables, recognised by role: loop targets whose .value / .condition is substituted somewhere
+    loop_targets = {l.target.id for l in walk_no_nested(comp.node) if isinstance(l, ast.For) and isinstance(l.target, ast.Name)}
+    end_vars = set()
+    for c in walk_no_nested(comp.node):
+        if isinstance(c, ast.Call) and call_name(c) == "substitute" and isinstance(c.func, ast.Attribute):
+            recv = c.func.value
+            if isinstance(recv, ast.Attribute) and recv.attr in ("value", "condition") and isinstance(recv.value, ast.Name) and recv.value.id in loop_targets:
+                end_vars.add(recv.value.id)
+    if not end_vars:
+        raise AnalysisError(f"{rule_s}: no effect variable whose value / condition is substituted in TimedToSequential._compile")
     for nd in ccfg.nodes:
         if nd.kind != "test" or nd.ast is None:
             continue
@@ -384,12 +394,12 @@ def c28(idx: Index, rep: Report, tier: str) -> None:
             if not (isinstance(x, ast.Name) and isinstance(x.ctx, ast.Load)):
                 continue
             src = cdu.sources(x, nd)
-            from_end = [c for c in src if len(c) >= 2 and c[0] == "oee" and c[1] in ("value", "condition")]
+            from_end = [c for c in src if len(c) >= 2 and c[0] in end_vars and c[1] in ("value", "condition")]
             if not from_end:
                 continue
             ns += 1
-            ok = any(len(c) >= 3 and c[0] == "oee" and c[2].rstrip("()") == "substitute" for c in src)
-            rep.check(ok, rule_s, f"`{x.id}` is tested with the start effects applied", comp.loc(nd.ast), construct=f"{norm(nd.ast)[:60]}: {x.id} " + ("derives from oee.….substitute(…)" if ok else "derives from the end effect without substitution"), detail="" if ok else "the decision (e.g. to drop an end effect that a precondition already implies) is taken on the expression as written, before the start effects: when a start effect changes a fluent of that expression the effect is dropped although it writes a different value, and the compiled plan maps back to a plan the validator rejects", function=comp.qualname)
+            ok = any(len(c) >= 3 and c[0] in end_vars and c[2].rstrip("()") == "substitute" for c in src)
+            rep.check(ok, rule_s, f"`{x.id}` is tested with the start effects applied", comp.loc(nd.ast), construct=f"{norm(nd.ast)[:60]}: {x.id} " + ("derives from <end effect>.….substitute(…)" if ok else "derives from the end effect without substitution"), detail="" if ok else "the decision (e.g. to drop an end effect that a precondition already implies) is taken on the expression as written, before the start effects: when a start effect changes a fluent of that expression the effect is dropped although it writes a different value, and the compiled plan maps back to a plan the validator rejects", function=comp.qualname)
             break
     rep.count("end_expression_tests", ns)
     rep.require_min(rule_s, "end_expression_tests", 2)
@@ -3049,7 +3059,7 @@ def stored_keys_have_stable_hashes(idx: Index, rep: Report, rule: str) -> None:
                         mutated.setdefault(fld, mname)
             unstable = sorted(hashed & set(mutated))
             ok = not unstable
-            rep.check(ok, rule, f"{ci.name}.__hash__ reads nothing its own methods change", h.loc(), construct=f"{ci.name}: keys of {holder.name}.{field}; __hash__ reads " + ("only fields fixed at construction" if ok else f"{unstable[:4]} (changed by {sorted({mutated[u] for u in unstable})[:3]})"), detail="" if ok else f"an action that is modified after it became a key of {holder.name}.{field} hashes differently from the entry that holds it: the table compares unequal to any faithful copy (the clone of such a problem is not equal to the original) and the cost lookup misses", function=h.qualname)
+            rep.check(ok, rule, f"{ci.name}.__hash__ reads nothing its own methods change", h.loc(), construct=f"{ci.name}: key class for {holder.name}.{field}; __hash__ reads " + ("only fields fixed at construction" if ok else f"{unstable[:4]} (changed by {sorted({mutated[u] for u in unstable})[:3]})"), detail="" if ok else f"an action that is modified after it became a key of {holder.name}.{field} hashes differently from the entry that holds it: the table compares unequal to any faithful copy (the clone of such a problem is not equal to the original) and the cost lookup misses", function=h.qualname)
     rep.count("stored_key_classes", n)
     rep.require_min(rule, "stored_key_classes", 2)
 
